@@ -121,8 +121,29 @@ func genNumKey(repo string) (string, error) {
 			}
 			fills := false
 			ast.Inspect(fs.Body, func(m ast.Node) bool {
-				if sel, ok := m.(*ast.SelectorExpr); ok && sel.Sel.Name == "Levels" {
-					fills = true
+				switch x := m.(type) {
+				case *ast.SelectorExpr:
+					if x.Sel.Name == "Levels" {
+						fills = true
+					}
+				case *ast.CompositeLit:
+					if id, ok := x.Type.(*ast.Ident); ok && id.Name == "Level" {
+						fills = true
+					}
+				case *ast.CallExpr:
+					// a call of a function of the package that returns a *Level
+					name := ""
+					switch f := x.Fun.(type) {
+					case *ast.Ident:
+						name = f.Name
+					case *ast.SelectorExpr:
+						name = f.Sel.Name
+					}
+					for _, g := range p.allFuncs() {
+						if g.Name.Name == name && g.Type.Results != nil && len(g.Type.Results.List) == 1 && exprString(g.Type.Results.List[0].Type) == "*Level" {
+							fills = true
+						}
+					}
 				}
 				return true
 			})
